@@ -7,6 +7,18 @@ PY = '/venv/bin/python -B -m vf.run'
 
 # id -> (engine, category, technique, level text, level_note, design_ref)
 CHECKS = {
+ 'C20': ('TX', 'model_checking',
+         'stateless exploration of real thread schedules (cooperative baton passing, iterative preemption bounding) with commit-order monitors',
+         '38 session programs over two shared rows (read-modify-write, read-a-write-b, blind writes, float / optimistic=False / volatile control groups, reads through select/get, get_for_update, non-optimistic sessions, delete, create): quick = preemption bound 2 inside a 22-program core, bound 1 for the other of 741 pairs, three sessions at bound 1; thorough = all interleavings of the pairs and three sessions at bound 3. Monitors at every scheduling point with an independent observer connection: stale read at commit, per-row composition in commit order (no committed update lost), rows change only in commits of sessions that end OK, a failing optimistic check is justified by a committed change of a checked column. PostgreSQL: the UPDATE WHERE clause emitted by the real PGProvider covers the read set (statement-log model).',
+         'Statement granularity (driver calls and provider-lock acquires); races inside one driver call are not explored. timeout=0 turns SQLite busy-waits into immediate errors ("writers wait or fail"). PostgreSQL/MySQL server behaviour is out of reach.', 'DESIGN.md section 3 C20'),
+ 'C21': ('TX', 'model_checking',
+         'stateless exploration of reader x committing-writer schedules; equality of repeated observations as oracle',
+         '30 reader programs that re-observe attributes, collections and link attributes by different routes (query, other side of a relationship, get_for_update, lazy load, prefetch, collection.load, len/count/in/is_empty) x 14 committing writers (update, delete, move/unlink/insert into a loaded collection, many-to-many add/remove, one-to-one swap, volatile-only changes): quick preemption bound 2 (420 pairs), thorough all interleavings plus reader + two writers at bound 2. Every key observed twice has equal values or the reader gets an exception; volatile attributes are the control group (a volatile-only change must not raise).',
+         'SQLite only; statement granularity.', 'DESIGN.md section 3 C21'),
+ 'C35': ('TX', 'model_checking',
+         'stateless exploration of locker x writer and locker x locker schedules with a lock-window monitor; emission check on the PostgreSQL builder',
+         '18 locker programs (get_for_update, query.for_update, nowait, skip_locked, read-then-lock, two rows, serializable, immediate) against 12 writers and each other: quick bound 2 (387 pairs) + triples at bound 1, thorough all interleavings + triples at bound 3. No other session\'s commit changes a locked or serializably-read row between the lock and the locker\'s last commit/rollback; re-reads under lock are equal; composition in commit order; no deadlock. PostgreSQL: FOR UPDATE [NOWAIT|SKIP LOCKED] rendered exactly when requested (41 request shapes), locking SELECT with autocommit off, SET TRANSACTION ISOLATION LEVEL SERIALIZABLE first (statement-log model).',
+         'On SQLite the lock is the process-wide provider lock plus BEGIN IMMEDIATE. PostgreSQL row-lock blocking is out of reach (emission and transaction mode only, model-based).', 'DESIGN.md section 3 C35'),
  'C18': ('VX', 'exploration',
          'bounded-exhaustive enumeration of db_session forms x configurations x body scripts against a reference outcome function, with leak probes',
          'Every combination of db_session form (decorator with retry 0-2, context manager, 2-3 nested sessions, generator functions driven by next/send/throw/close, the Flask and Bottle integrations on stub frameworks), configuration (allowed_exceptions / retry_exceptions as lists, callables and raising callables; strict/immediate/serializable/optimistic/ddl/sql_debug) and body script (<= 3 operations over write/flush/commit/rollback/8 exception kinds, a different script per attempt) is executed on real SQLite and compared with a reference outcome function (rows read through an independent connection, number of body executions, propagated exception class), plus leak probes of the thread-local session state, the SQLite transaction lock and a follow-up session.',
@@ -134,6 +146,7 @@ def main():
              engines=[
                  dict(name='SX', path='vf/engines/sx.py', serves_properties=[], kind_free_text='session explorer: explicit-state BFS over operation histories on the real session cache, canonical-state deduplication, twin executions as oracles'),
                  dict(name='QX', path='vf/engines/qx.py', serves_properties=[], kind_free_text='query-space enumerator with a typed three-valued reference evaluator'),
+                 dict(name='TX', path='vf/engines/tx.py', serves_properties=[], kind_free_text='stateless explorer of real thread schedules: baton passing at driver calls and provider locks, iterative preemption bounding, deadlock detection, replay determinism check'),
                  dict(name='VX', path='vf/props', serves_properties=[], kind_free_text='bounded-exhaustive value/declaration/expression enumerators'),
                  dict(name='DM', path='vf/engines/dm.py', serves_properties=['C02', 'C06', 'C25'], kind_free_text='dialect models: capture databases on stub drivers + SQLite substrate with documented function semantics'),
              ],
